@@ -460,6 +460,69 @@ void vector_cases(ivec const &v, int const k)
   // dims: same component-wise operations
   auto const da(mk_dim<N>(v, 0));
   auto const db(mk_dim<N>(v, N));
+  // the scalar of operator*=(value_type const &) taken from the object itself (it aliases a
+  // component that the operation overwrites); the record carries its value before the call
+  static_for<N>([&](auto idx) {
+    constexpr sz I = decltype(idx)::value;
+    {
+      auto x(a);
+      Rec r("scale_assign");
+      r.ks("k", "vector").ks("st", "static,alias").k("a", aj).ki("k", v[I]).ki("alias", I).begin();
+      x *= x.get_unsafe(I);
+      r.k("r", vj_(x)).end();
+    }
+    {
+      auto m2(mk_mat<2, N>(v, 0));
+      auto row0(m2.get_unsafe(0));
+      Rec r("scale_assign");
+      r.ks("k", "vector").ks("st", "view,alias").k("a", aj).ki("k", v[I]).ki("alias", I).begin();
+      row0 *= row0.get_unsafe(I);
+      r.k("r", vj_(m2.get_unsafe(0))).end();
+    }
+    {
+      auto d(da);
+      Rec r("scale_assign");
+      r.ks("k", "dim").ks("st", "static,alias").k("a", aj).ki("k", v[I]).ki("alias", I).begin();
+      d *= d.get_unsafe(I);
+      r.k("r", vj_(d)).end();
+    }
+  });
+  // both operands the same object
+  {
+    auto x(a);
+    Rec r("add_assign");
+    r.ks("k", "vector").ks("st", "self").k("a", aj).k("b", aj).begin();
+    x += x;
+    r.k("r", vj_(x)).end();
+  }
+  {
+    auto x(a);
+    Rec r("sub_assign");
+    r.ks("k", "vector").ks("st", "self").k("a", aj).k("b", aj).begin();
+    x -= x;
+    r.k("r", vj_(x)).end();
+  }
+  {
+    auto x(a);
+    Rec r("mul_assign");
+    r.ks("k", "vector").ks("st", "self").k("a", aj).k("b", aj).begin();
+    x *= x;
+    r.k("r", vj_(x)).end();
+  }
+  {
+    auto d(da);
+    Rec r("add_assign");
+    r.ks("k", "dim").ks("st", "static,static").k("a", aj).k("b", bj).begin();
+    d += db;
+    r.k("r", vj_(d)).end();
+  }
+  {
+    auto d(da);
+    Rec r("scale_assign");
+    r.ks("k", "dim").ks("st", "static").k("a", aj).ki("k", k).begin();
+    d *= k;
+    r.k("r", vj_(d)).end();
+  }
   vec_binary("dim", "static,static", aj, bj, da, db);
   vec_order("dim", "static,static", aj, bj, da, db);
   vec_unary("dim", "static", aj, da, k);
@@ -652,6 +715,20 @@ void matrix_same_shape_more(char const *grp, ivec const &v)
     r.k("r", mj_(x)).end();
   }
   {
+    auto x(a);
+    Rec r("madd_assign");
+    r.ks("g", grp).ks("st", "self").k("a", aj).k("b", aj).begin();
+    x += x;
+    r.k("r", mj_(x)).end();
+  }
+  {
+    auto x(a);
+    Rec r("msub_assign");
+    r.ks("g", grp).ks("st", "self").k("a", aj).k("b", aj).begin();
+    x -= x;
+    r.k("r", mj_(x)).end();
+  }
+  {
     Rec r("mne");
     r.ks("g", grp).k("a", aj).k("b", bj).begin();
     bool const res = a != b;
@@ -757,6 +834,14 @@ void matrix_access(char const *grp, ivec const &v)
         r.ks("g", grp).k("a", aj).ki("i", I).ki("j", J).begin();
         int const res = fm::matrix::at_r_c<I, J>(a);
         r.ki("r", res).end();
+      }
+      {
+        // M *= (an element of M itself): the scalar aliases a component that is overwritten
+        auto x(a);
+        Rec r("mscale_assign");
+        r.ks("g", grp).ks("st", "alias").k("a", aj).ki("k", v[I * C + J]).ki("i", I).ki("j", J).begin();
+        x *= x.get_unsafe(I).get_unsafe(J);
+        r.k("r", mj_(x)).end();
       }
       if constexpr (R >= 2 && C >= 2)
       {
